@@ -97,6 +97,8 @@ class SimNet:
         self._empty_reads = 0
         self._timeouts = 0
         self.send_calls = 0       # number of send() (not sendall) calls, names their draw scope
+        self.sendall_calls = 0
+        self.sendall_faults = False   # scenario knob: sendall may time out before writing anything
         self.cut_log = []         # (segment scope, span kind) for every recv that ended inside a reply
         self.seg_log = []         # (scope, length) of every enqueued segment
         self.socket_module = _SocketModule(self)
@@ -364,7 +366,18 @@ class FakeSocket:
 
     def sendall(self, data, flags=0):
         self._chk()
-        self._net.send(self._conn, self.channel, data)
+        net = self._net
+        if net.sendall_faults:
+            # a full send buffer: sendall gives up after the socket timeout, nothing was written (drawn, 0 = no fault)
+            with net.ch.abs_scope("sendall#%d" % net.sendall_calls):
+                fail = net.ch.net.weighted("sendfail", [40, 1])
+            net.sendall_calls += 1
+            if fail:
+                net.stats.probe("sendall_timeout")
+                net.clock.now += self._timeout or 0
+                net.events.append(("sendfail", self._conn.id))
+                raise _real_socket.timeout("timed out")
+        net.send(self._conn, self.channel, data)
         return None
 
     def shutdown(self, how):
@@ -516,7 +529,13 @@ class _SSLModule:
         conn = sock._conn
         if conn is None:
             raise ValueError("attempt to wrap an unconnected socket")
+        pending = any(sg.pos < len(sg.data) for sg in conn.segments)
         outcome = net.server.on_tls_handshake(conn, server_hostname)
+        if pending and outcome == "ok":
+            # unread plaintext in the pipe would be fed to the TLS handshake, which cannot survive it
+            conn.state.tls = False
+            net.server._close(conn)
+            outcome = "sslerror"
         net.events.append(("tls", conn.id, outcome))
         if outcome == "ok":
             conn.channel = "tls"
